@@ -62,6 +62,16 @@ CHECKS = {
              "MMAP2/FORK records (relative start from page offset or ELF segments, inheritance across fork) is not covered by this check. jitdump/perf-map tables empty.",
         technique="Coq proof (queue replay = filter by timestamp on ordered queues; composition lemma; refinement to C11's history specification) + differential correspondence run evaluated by vm_compute",
         design="4/C01,C17,C02"),
+    "C20": dict(
+        text="Coq theorem C20_listing: for every decoder satisfying two stated assumptions (success consumes 1..remaining bytes; 'invalid' consumes >= 1 byte), every byte count, "
+             "resync step > 0 and decode length, the decode loop terminates within its fuel and its listing starts at offset 0, stays below the decode length, advances by exactly the "
+             "decoded length (or the resync step after an invalid entry) - a gap-free, overlap-free tiling - and reports a size beyond every listed offset; "
+             "C20_first_zero/_in_range/_step_exact unfold that; C20_adjust_positive re-checks the regenerated resync constants. Tied to samply-api by /asm/v1 requests over the x86-64, ARM and "
+             "AArch64 fixtures with the yaxpeax decoder called at every byte offset as oracle, checker + model evaluated in Coq. F-C20 (size after an invalid instruction) found, fixed, kept in corpus.",
+        note="Trusted: Coq kernel; yaxpeax decoders as oracle under the two assumptions (checked per oracle entry); harness h_api. Not independently checked: that the bytes read are the binary's bytes at "
+             "that relative address (same reader on both sides). No i686 fixture survives in this sandbox.",
+        technique="Coq proof (loop invariant `chain` by induction on fuel; termination measure) with the decoder as a section-variable oracle + differential correspondence run evaluated by vm_compute",
+        design="4/C20"),
 }
 
 NOT_YET = "check not built yet in this development (planned: see DESIGN.md section 4); no claim is made"
